@@ -131,6 +131,8 @@ type Interp struct {
 	replaceFn      map[string]*ssa.Function
 	pureMode       bool // executing an if-conversion arm
 	initErrors     []string
+	model          map[string]uint64
+	modelFor       *Term
 	onceDone       map[Ptr]bool
 	pools          map[Ptr][]Value
 	atomicVals     map[Ptr]Value
@@ -714,6 +716,21 @@ func (in *Interp) assumeTerm(t *Term) {
 	if in.sol != nil {
 		in.sol.Assert(t)
 	}
+	if in.model != nil && t != in.modelFor {
+		if !in.evalModelSafe(t) {
+			in.model = nil
+		}
+	}
+	in.modelFor = nil
+}
+
+func (in *Interp) evalModelSafe(t *Term) (ok bool) {
+	defer func() {
+		if recover() != nil {
+			ok = false
+		}
+	}()
+	return Eval(t, in.model, map[*Term]uint64{}) == 1
 }
 
 func (in *Interp) feasible(t *Term) Result {
@@ -723,8 +740,10 @@ func (in *Interp) feasible(t *Term) Result {
 		}
 		return Unsat
 	}
-	r, _ := in.sol.Check(t, nil)
-	return r
+	if in.model != nil && in.evalModelSafe(t) {
+		return Sat
+	}
+	return in.feasibleM(t, true)
 }
 
 func (in *Interp) branch(cond *Term) bool {
@@ -750,12 +769,25 @@ func (in *Interp) branch(cond *Term) bool {
 		in.assumeTerm(in.ctx.Not(cond))
 		return false
 	}
-	rT := in.feasible(cond)
-	var rF Result
-	if rT == Unsat {
-		rF = Sat
+	// A model of the current path condition witnesses one side without a query.
+	var rT, rF Result
+	if in.model != nil {
+		if in.evalModel(cond) {
+			rT = Sat
+			rF = in.feasibleM(in.ctx.Not(cond), false)
+		} else {
+			rF = Sat
+			rT = in.feasibleM(cond, false)
+		}
 	} else {
-		rF = in.feasible(in.ctx.Not(cond))
+		rT = in.feasibleM(cond, true)
+		if rT == Unsat {
+			rF = Sat
+		} else if rT == Sat && in.model != nil {
+			rF = in.feasibleM(in.ctx.Not(cond), false)
+		} else {
+			rF = in.feasible(in.ctx.Not(cond))
+		}
 	}
 	if rT == Unknown || rF == Unknown {
 		in.res.UnknownKept++
@@ -764,12 +796,21 @@ func (in *Interp) branch(cond *Term) bool {
 	if !tOK && !fOK {
 		panic(pathAbort{"infeasible"})
 	}
+	// prefer the side the model witnesses so it stays valid
+	takeT := tOK
+	if tOK && fOK && in.model != nil {
+		takeT = in.evalModel(cond)
+	}
 	if tOK && fOK {
-		alt := append(append([]Decision(nil), in.decs...), Decision{Kind: 'b', Val: 0})
+		other := int64(0)
+		if !takeT {
+			other = 1
+		}
+		alt := append(append([]Decision(nil), in.decs...), Decision{Kind: 'b', Val: other})
 		in.newWork = append(in.newWork, alt)
 		in.res.Forks++
 	}
-	if tOK {
+	if takeT {
 		in.decs = append(in.decs, Decision{Kind: 'b', Val: 1})
 		in.pos++
 		in.assumeTerm(cond)
@@ -779,6 +820,33 @@ func (in *Interp) branch(cond *Term) bool {
 	in.pos++
 	in.assumeTerm(in.ctx.Not(cond))
 	return false
+}
+
+// evalModel evaluates a boolean term under the cached model (variables the
+// model does not mention are unconstrained by the path condition: use 0).
+func (in *Interp) evalModel(t *Term) bool {
+	return Eval(t, in.model, map[*Term]uint64{}) == 1
+}
+
+// feasibleM checks sat(pc ∧ t); with keep it stores the model as the model of
+// the path condition when t is then assumed by the caller.
+func (in *Interp) feasibleM(t *Term, keep bool) Result {
+	if t.IsConst() {
+		if t.val == 1 {
+			return Sat
+		}
+		return Unsat
+	}
+	if !keep {
+		r, _ := in.sol.Check(t, nil)
+		return r
+	}
+	r, m := in.sol.Check(t, in.ctx.vars)
+	if r == Sat && m != nil {
+		in.model = m
+		in.modelFor = t
+	}
+	return r
 }
 
 // choose forks over the concrete values lo..hi without consulting the solver.
